@@ -75,6 +75,46 @@ pub fn reference_main(mix: usize, instance: usize) -> i32 {
     }
 }
 
+/// `hx c18free <mix>`: as the very first use of the library in this (fresh) process, 16 threads
+/// released from a barrier build and run the instances of the mix (thread t takes instance
+/// t mod k); their outputs as JSON. SAMPLING of real concurrency - whatever is initialised
+/// lazily on first use is initialised under contention here.
+pub fn free_main(mix: usize) -> i32 {
+    let Some(m) = mixes().into_iter().nth(mix) else { return 2 };
+    let k = m.cfgs.len();
+    let nthreads = 16;
+    let barrier = std::sync::Arc::new(std::sync::Barrier::new(nthreads));
+    let hs: Vec<_> = (0..nthreads)
+        .map(|t| {
+            let cfg = m.cfgs[t % k].clone();
+            let b = barrier.clone();
+            let (partial, hostile) = (m.partial, m.hostile);
+            std::thread::spawn(move || {
+                b.wait();
+                solo(&cfg, t % k, partial, hostile)
+            })
+        })
+        .collect();
+    let mut all: Vec<Vec<StepOut>> = Vec::new();
+    for h in hs {
+        match h.join() {
+            Ok(Ok(o)) => all.push(o),
+            _ => return 2,
+        }
+    }
+    println!("{}", serde_json::to_string(&all).unwrap());
+    0
+}
+
+fn fresh_process_free_running(mix: usize) -> Result<Vec<Vec<StepOut>>, String> {
+    let exe = std::env::current_exe().map_err(|e| e.to_string())?;
+    let out = std::process::Command::new(exe).args(["c18free", &mix.to_string()]).output().map_err(|e| format!("c18free: {}", e))?;
+    if !out.status.success() {
+        return Err(format!("c18free {} failed: {}", mix, String::from_utf8_lossy(&out.stderr)));
+    }
+    serde_json::from_slice(&out.stdout).map_err(|e| format!("c18free output: {}", e))
+}
+
 fn fresh_process_reference(mix: usize, instance: usize) -> Result<Vec<StepOut>, String> {
     let exe = std::env::current_exe().map_err(|e| e.to_string())?;
     let out = std::process::Command::new(exe)
@@ -507,6 +547,24 @@ fn run_schedules(mix: &Mix, item: &Item, journal: Option<&JournalFile>) -> Resul
             }
         }
     }
+    // ---- supplementary, sampling (labelled so): the same, as the first use of the library in a
+    // fresh process (lazily initialised process-wide state is initialised under contention)
+    let mut fresh_free_rounds = 0u64;
+    if item.part == 0 && !mix.name.starts_with("pool ") {
+        for _ in 0..4 {
+            let outs = fresh_process_free_running(item.mix)?;
+            fresh_free_rounds += 1;
+            for (t, o) in outs.iter().enumerate() {
+                if o != &reference[t % k] && found.len() < 10 {
+                    found.push(json!({
+                        "prop": "C18", "sig": "concurrent-first-use-changes-output",
+                        "detail": format!("mix '{}': instance {} built and run by one of 16 threads released together as the first use of the library in a fresh process differs from the isolated run (free-running, sampled)", mix.name, t % k),
+                        "cfg": mix.cfgs[t % k].to_json(), "history": "", "point": format!("mix={} free-running in a fresh process", mix.name),
+                    }));
+                }
+            }
+        }
+    }
     // ---- supplementary, sampling (labelled so): free-running threads behind a barrier
     let mut free_rounds = 0u64;
     if item.part == 0 {
@@ -555,7 +613,7 @@ fn run_schedules(mix: &Mix, item: &Item, journal: Option<&JournalFile>) -> Resul
         "evaluations": schedules, "nontrivial": schedules,
         "outcomes": outcome_set.iter().take(2000).collect::<Vec<_>>(),
         "found": found, "samples": sample.map(|s| vec![s]).unwrap_or_default(),
-        "extra": {"free_running_rounds_sampled": free_rounds, "interleavings": inter.len(), "assignments_per_interleaving": assignments},
+        "extra": {"free_running_rounds_sampled": free_rounds + fresh_free_rounds, "interleavings": inter.len(), "assignments_per_interleaving": assignments},
     }))
 }
 
